@@ -296,6 +296,43 @@ def run_case(case: dict[str, Any]) -> Outcome:
     n_turns = len(mc.turns)
     multi = sum(1 for i in turn_info if i["data"] >= 2)
 
+    # ---- pass 2b: the per-batch token walk through the *routed* (capped) workers.  A response that carries more than
+    # one data batch has only one cursor, so next_with_token may refuse it (RuntimeError, documented) — but every
+    # (batch, token) pair it does hand out must be exact: the token resumes right after that batch, on a worker that never saw it.
+    if any(c is not None for c in caps):
+        wc = WireClient(apps, route, accept)
+        with http_connect(ScriptService, client=wc, compression_level=None) as p:
+            sess, _werr = _open(p, method, script)
+            w_obs, w_toks, w_term = ([], [], _werr) if sess is None else _drain_tokens(sess)
+        assert w_term is not None
+        out.label("capped_token_walk=" + ("refused" if w_term[0] == "api_error" else "walked"))
+        if w_obs != exp_seq[: len(w_obs)]:
+            out.fail("token_walk/sequence/capped", f"next_with_token walk over caps={caps} route={route} got {_short(w_obs)} expected a prefix of {_short(exp_seq)}")
+        else:
+            # how the walk *ends* against a capped worker is not judged: next_with_token documents that it needs an
+            # uncapped worker (a turn that packs data + error, or data + data, has no per-batch cursor to offer)
+            for k, tok in enumerate(w_toks):
+                # no token is fine when nothing is left to resume (a capped turn may run into the end of the stream
+                # right behind its last batch); a batch with successors must come with its own token
+                if tok is None and k + 1 < len(exp_seq):
+                    out.fail("token_walk/token_missing/capped", f"batch {k} of {len(exp_seq)} handed out without a resume token (caps={caps}, route={route})")
+                    break
+                if tok is not None and k < len(resumable) and not resumable[k]:
+                    out.fail("token_walk/token_after_end/capped", f"batch {k} ends the stream but came with a resume token (caps={caps}, route={route})")
+                    break
+                if tok is None:
+                    continue
+                vc = WireClient(apps, [0], None)
+                with http_connect(ScriptService, client=vc, compression_level=None) as p:
+                    v_obs, v_term = _drain_iter(p.resume_stream(method, tok))
+                if v_obs != exp_seq[k + 1:] or not _term_ok(v_term, exp_term):
+                    out.fail(
+                        "token_walk/token_resumes_elsewhere/capped",
+                        f"token handed out with batch {k} by a capped worker (caps={caps}, route={route}, {cfg}) resumes to {_short(v_obs)} "
+                        f"ending {v_term!r}; the batches after {k} are {_short(exp_seq[k + 1:])} ending {exp_term!r}",
+                    )
+                    break
+
     # ---- pass 3: resumes
     cross = 0
     n_res = 0
